@@ -1387,6 +1387,7 @@ where
         }
         let mut events = Vec::new();
         let rc = packet.return_code();
+        let session_present = packet.session_present();
         events.push(GenericEvent::RequestSendPacket {
             packet: packet.into(),
             release_packet_id_if_send_error: None,
@@ -1399,7 +1400,12 @@ where
         }
 
         self.status = ConnectionStatus::Connected;
-        events.extend(self.send_stored());
+        if session_present {
+            events.extend(self.send_stored());
+        } else {
+            // The server starts a new session: nothing of the old one carries over
+            self.clear_store_related();
+        }
         self.send_post_process(&mut events);
 
         events
@@ -1419,6 +1425,7 @@ where
 
         let mut events = Vec::new();
         let rc = packet.reason_code();
+        let session_present = packet.session_present();
         if rc == ConnectReasonCode::Success {
             // Process properties
             for prop in packet.props() {
@@ -1474,7 +1481,12 @@ where
 
         self.status = ConnectionStatus::Connected;
 
-        events.extend(self.send_stored());
+        if session_present {
+            events.extend(self.send_stored());
+        } else {
+            // The server starts a new session: nothing of the old one carries over
+            self.clear_store_related();
+        }
         self.send_post_process(&mut events);
 
         events
